@@ -13,6 +13,8 @@ import (
 	"sort"
 	"strings"
 	"sync"
+	"sync/atomic"
+	"syscall"
 	"time"
 
 	"github.com/superfly/litefs"
@@ -567,44 +569,7 @@ func runC14(r *Run) {
 	}
 	// a donor with another history of the same database (for forks / ahead)
 	mkDonorFiles := func(extra int, fork bool) ([]string, [][]byte, bool) {
-		img, err := h.n.Image(fmt.Sprintf("donor%d", r.Steps))
-		if err != nil {
-			return nil, nil, false
-		}
-		var dn *Node
-		if fork {
-			dn = r.NewNode(NodeCfg{Candidate: true, Compress: compress})
-			dn.Cfg.Leaser = litefs.NewStaticLeaser(true, dn.Name, dn.URL())
-			if dn.Open() != nil {
-				return nil, nil, false
-			}
-		} else {
-			if dn, err = c17Open(r, img); err != nil {
-				return nil, nil, false
-			}
-		}
-		defer func() { dn.Fence(); dn.Close() }()
-		dn.WaitPrimary(5 * time.Second)
-		hd := &hist{r: r, n: dn, name: h.name, pageSize: h.pageSize, jmode: h.jmode, maxPages: h.maxPages}
-		if !fork {
-			hd.ref, hd.wal = h.ref, h.wal
-		}
-		if !hd.openConns(1) {
-			return nil, nil, false
-		}
-		for i := 0; i < extra+3 && !r.Failed(); i++ {
-			hd.commit(t)
-		}
-		hd.closeConns()
-		ddb := dn.Store.DB(h.name)
-		if ddb == nil || ddb.Pos().TXID == 0 {
-			return nil, nil, false
-		}
-		b, _, err := SnapshotBytes(ddb)
-		if err != nil {
-			return nil, nil, false
-		}
-		return []string{ltx.FormatFilename(1, ddb.Pos().TXID)}, [][]byte{b}, true
+		return c14DonorFiles(r, t, h, compress, extra, fork)
 	}
 
 	nsteps := t.Range(4, 14)
@@ -677,9 +642,11 @@ func runC14(r *Run) {
 			continue
 		}
 		// ... then a sync, possibly with a failing upload
-		fault := []string{"", "", "", "before", "middle", "after"}[t.Next(6)]
+		fault := []string{"", "", "", "before", "middle", "after", "os-error"}[t.Pick([]int{1, 1, 1, 1, 1, 1, 2})]
 		fb.mu.Lock()
-		fb.mode = fault
+		if fault != "os-error" {
+			fb.mode = fault
+		}
 		fb.mu.Unlock()
 		lposBefore := db.Pos()
 		sNames, sData := svc.files(h.name)
@@ -702,11 +669,27 @@ func runC14(r *Run) {
 			rel = "behind-forked"
 		}
 		h.closeConns()
+		// can the service's chain be extended from the primary's log? (every
+		// transaction after the service's position is in a file on disk)
+		extendable := (rel == "behind" || rel == "empty" || rel == "equal") && c14LogCovers(db, sposBefore.TXID+1, lposBefore.TXID)
+		if fault == "os-error" {
+			// a transient error of one file-system call during the sync (too many
+			// open files, an I/O error, a permission problem)
+			atomic.StoreInt64(&h.n.OS.fired, 0)
+			h.n.OS.FiredAt = ""
+			h.n.OS.FailErr = []error{syscall.EIO, syscall.EMFILE, syscall.EACCES}[t.Next(3)]
+			h.n.OS.FailMatch = nil
+			h.n.OS.FailNth = int64(t.Range(1, 10))
+		}
 		ctx, cancel := context.WithTimeout(context.Background(), 30*time.Second)
 		err := h.n.Store.SyncBackup(ctx)
 		cancel()
 		fb.mu.Lock()
 		fired := fb.mode == "" && fault != ""
+		if fault == "os-error" {
+			fired = h.n.OS.FiredAt != ""
+			h.n.OS.FailNth = 0
+		}
 		fb.mode = ""
 		acks := fb.acks
 		fb.mu.Unlock()
@@ -744,6 +727,11 @@ func runC14(r *Run) {
 				outcome = "restored"
 				restores++
 				r.Count("c14.restore." + rel)
+				// ... which it may do only when the service is ahead, on another
+				// history, or cannot be extended from the primary's log
+				if !r.Check(!extendable, "c14.restore-without-cause", "the service was %s (at %s) on the primary's own history and every transaction up to the primary's position %s was in its log, yet the sync (fault %q at %s) made the primary adopt the service's snapshot: committed transactions %s..%s were discarded", rel, sposBefore, lposBefore, fault, h.n.OS.FiredAt, sposBefore.TXID+1, lposBefore.TXID) {
+					return
+				}
 				if !r.Check(spos == sposBefore && fmt.Sprint(names) == fmt.Sprint(sNames), "c14.service-overwritten", "the service was %s (at %s) relative to the primary (at %s); after the sync its files changed: %v -> %v", rel, sposBefore, lposBefore, sNames, names) {
 					return
 				}
@@ -812,6 +800,9 @@ func runC14(r *Run) {
 					return
 				}
 			} else if lp2 != lposBefore {
+				if !r.Check(!extendable || fault != "os-error", "c14.restore-without-cause", "the service was %s (at %s) on the primary's own history and every transaction up to the primary's position %s was in its log; after a sync that failed with a file-system error (%s) and a retry the primary is at %s: committed transactions were discarded", rel, sposBefore, lposBefore, h.n.OS.FiredAt, lp2) {
+					return
+				}
 				// the retry ended in a restore (e.g. the lost reply made the service 'equal'): adopt
 				disk, _ := ReadDiskImage(db.Path())
 				if disk != nil {
@@ -832,6 +823,77 @@ func runC14(r *Run) {
 		}
 	}
 	h.closeConns()
+}
+
+// c14DonorFiles builds another history of h's database on a scratch node (a fork
+// from nothing, or a continuation of the primary's current image that the
+// primary does not have) and returns it as the files of a backup service.
+func c14DonorFiles(r *Run, t *Tape, h *hist, compress bool, extra int, fork bool) ([]string, [][]byte, bool) {
+	img, err := h.n.Image(fmt.Sprintf("donor%d", r.Steps))
+	if err != nil {
+		return nil, nil, false
+	}
+	var dn *Node
+	if fork {
+		dn = r.NewNode(NodeCfg{Candidate: true, Compress: compress})
+		dn.Cfg.Leaser = litefs.NewStaticLeaser(true, dn.Name, dn.URL())
+		if dn.Open() != nil {
+			return nil, nil, false
+		}
+	} else {
+		if dn, err = c17Open(r, img); err != nil {
+			return nil, nil, false
+		}
+	}
+	defer func() { dn.Fence(); dn.Close() }()
+	dn.WaitPrimary(5 * time.Second)
+	hd := &hist{r: r, n: dn, name: h.name, pageSize: h.pageSize, jmode: h.jmode, maxPages: h.maxPages}
+	if !fork {
+		hd.ref, hd.wal = h.ref, h.wal
+	}
+	if !hd.openConns(1) {
+		return nil, nil, false
+	}
+	for i := 0; i < extra+3 && !r.Failed(); i++ {
+		hd.commit(t)
+	}
+	hd.closeConns()
+	ddb := dn.Store.DB(h.name)
+	if ddb == nil || ddb.Pos().TXID == 0 {
+		return nil, nil, false
+	}
+	b, _, err := SnapshotBytes(ddb)
+	if err != nil {
+		return nil, nil, false
+	}
+	return []string{ltx.FormatFilename(1, ddb.Pos().TXID)}, [][]byte{b}, true
+}
+
+// c14LogCovers reports whether the database's ltx directory holds files that
+// cover the transaction ids from..to without a gap.
+func c14LogCovers(db *litefs.DB, from, to ltx.TXID) bool {
+	if from > to {
+		return true
+	}
+	ents, err := os.ReadDir(db.LTXDir())
+	if err != nil {
+		return false
+	}
+	next := from
+	type span struct{ min, max ltx.TXID }
+	var spans []span
+	for _, e := range ents {
+		if min, max, err := ltx.ParseFilename(e.Name()); err == nil {
+			spans = append(spans, span{min, max})
+		}
+	}
+	sort.Slice(spans, func(i, j int) bool { return spans[i].min < spans[j].min })
+	for _, sp := range spans {
+		if sp.min == next {
+			next = sp.max + 1
+		}
+	}
+	return next > to
 }
 
 func maxInt(a, b int) int {
